@@ -319,6 +319,8 @@ def gen_epsilon_spec(rnd, kinds=("none", "none", "const", "spatial", "scalar_spa
         return {"kind": "const", "v": rnd.choice([1.0, 0.5, 0.0, -0.5, -1.0])}
     if k in ("spatial", "scalar_spatial"):
         return {"kind": k, "amp": rnd.choice([0.3, 1.0, 1.5]), "k": [rnd.choice([0.5, 2.0]), rnd.choice([0.0, 1.0])], "base": rnd.choice([1.0, 0.5])}
+    if k == "int_step":
+        return {"kind": "int_step", "side": rnd.choice([1, -1]), "lo": rnd.choice([1, 1, 0]), "hi": rnd.choice([0.5, 0.3, -0.4, 0.9])}
     return {"kind": "timedep", "amp": rnd.choice([0.2, 0.8]), "omega": rnd.choice([1.0, 10.0]), "base": rnd.choice([1.0, 0.7])}
 
 
